@@ -96,6 +96,13 @@ Definition clip_bound (n : Z) (x : option Z) (dflt : Z) : Z :=
   | Some v => if v <? 0 then Z.max 0 (v + n) else Z.min n v
   end.
 
+(* slice.indices(n) for a negative step: bounds in -1 .. n-1 *)
+Definition clip_bound_neg (n : Z) (x : option Z) (dflt : Z) : Z :=
+  match x with
+  | None => dflt
+  | Some v => if v <? 0 then Z.max (-1) (v + n) else Z.min (n - 1) v
+  end.
+
 (* (single?, positions) or None for IndexError *)
 Definition positions (n : Z) (ix : index) : option (bool * list Z) :=
   match ix with
@@ -105,12 +112,19 @@ Definition positions (n : Z) (ix : index) : option (bool * list Z) :=
               end
   | ISlice a b s =>
       let step := match s with None => 1 | Some v => v end in
-      if step <=? 0 then None      (* not generated: h5py rejects them *)
-      else
+      if step =? 0 then None       (* ValueError: slice step cannot be zero *)
+      else if 0 <? step then
         let start := clip_bound n a 0 in
         let stop := clip_bound n b n in
         let cnt := if stop <=? start then 0
                    else (stop - start + step - 1) / step in
+        Some (false, zrange (Z.to_nat cnt) start step)
+      else
+        (* negative step (numpy arrays only: basinmap / cached array) *)
+        let start := clip_bound_neg n a (n - 1) in
+        let stop := clip_bound_neg n b (-1) in
+        let cnt := if start <=? stop then 0
+                   else (start - stop - step - 1) / (- step) in
         Some (false, zrange (Z.to_nat cnt) start step)
   | IBool m => if zlen m =? n then Some (false, where_ m) else None
   | IArr l => match norm_all n l with
@@ -209,13 +223,16 @@ Inductive access :=
 | AIndex (ix : index)     (* obj[ix] *)
 | AIter                   (* [v for v in obj]: obj[0], obj[1], ... until
                              IndexError (no __iter__ is defined) *)
-| AArray.                 (* np.array(obj): obj.__array__() *)
+| AArray                  (* np.array(obj): obj.__array__() *)
+| ACast.                  (* np.array(obj, dtype=int): numpy casts what
+                             __array__ returns; the cache keeps the data *)
 
 Section ProxyAccess.
   Variable A : Type.
   Variable feat : list A.
   Variable bmap : list Z.
   Variable is_scalar : bool.
+  Variable cast : A -> A.
 
   (* legacy iteration protocol: any IndexError ends the iteration *)
   Fixpoint proxy_iter (fuel : nat) (i : Z) (cache : option (list A))
@@ -242,16 +259,24 @@ Section ProxyAccess.
            same per-index loop *)
         let '(c', arr) := proxy_array A feat bmap is_scalar cache in
         (c', match arr with Some l => RMany l | None => RErr end)
+    | ACast =>
+        let '(c', arr) := proxy_array A feat bmap is_scalar cache in
+        (c', match arr with Some l => RMany (map cast l) | None => RErr end)
     end.
 End ProxyAccess.
 
 (* stored data (h5py backed or numpy) *)
-Definition direct_access {A} (d : list A) (ac : access) : res A :=
+Definition direct_access {A} (cast : A -> A) (d : list A) (ac : access)
+  : res A :=
   match ac with
   | AIndex ix => np_index d ix
   | AIter => RMany d
   | AArray => RMany d
+  | ACast => RMany (map cast d)
   end.
+
+(* fingerprints of scalars are 8 * value: truncation towards zero *)
+Definition trunc8 (k : Z) : Z := Z.quot k 8 * 8.
 
 (* ------------------------------------------------------------------ *)
 (* files, basin definitions, store_basin                               *)
@@ -566,8 +591,27 @@ Fixpoint all_some {B} (l : list (option B)) : option (list B) :=
                    end
   end.
 
+(* filter_arr = None when filtering is disabled *)
+Definition fmask {A} (filt : option (list bool)) (l : list A) : list A :=
+  match filt with Some f => mask f l | None => l end.
+
+(* "if not filtered: pass" / new mapping / nested mapping *)
+Definition export_map_opt (filt : option (list bool)) (m : option (list Z))
+  : option (option (list Z)) :=
+  match filt with
+  | None => Some m
+  | Some f => match export_map f m with
+              | Some m' => Some (Some m')
+              | None => None
+              end
+  end.
+
+Definition empty_selection (filt : option (list bool)) : bool :=
+  match filt with Some f => count_true f =? 0 | None => false end.
+
 Definition export (st : store) (src : nat) (pfilts : list (list bool))
-           (filt : list bool) (feats : option (list Z)) : option file :=
+           (filt : option (list bool)) (feats : option (list Z))
+  : option file :=
   opt_bind (get_file st src) (fun root =>
   let hier := match pfilts with [] => false | _ => true end in
   opt_bind (if hier then child2root pfilts else Some (iota (f_n root)))
@@ -575,15 +619,24 @@ Definition export (st : store) (src : nat) (pfilts : list (list bool))
   (* ds[feat] of the dataset that is exported *)
   let view (d : list Z) : option (list Z) :=
       if hier then gather d idx_root else Some d in
-  if negb (zlen idx_root =? zlen filt) then None else
+  if negb (match filt with
+           | Some f => zlen idx_root =? zlen f
+           | None => true
+           end) then None else
   let names := match feats with
                | Some l => sorted_ids l
                | None => sorted_ids (map fst (f_innate root))
                end in
   opt_bind (all_some (map (fun f =>
               opt_bind (resolve st src f) (fun d =>
-              opt_bind (view d) (fun v => Some (f, mask filt v)))) names))
+              opt_bind (view d) (fun v => Some (f, fmask filt v)))) names))
     (fun innate =>
+  (* no event selected: nothing is stored, no basins (fix
+     C07-export-empty-selection-basins) *)
+  if empty_selection filt then
+    Some {| f_n := 0; f_innate := []; f_slots := empty_slots;
+            f_basins := [] |}
+  else
   (* default feature list: the basinmap features of the source are
      innate features and are exported (filtered) as well *)
   opt_bind (match feats with
@@ -592,7 +645,7 @@ Definition export (st : store) (src : nat) (pfilts : list (list bool))
                         match s with
                         | None => Some None
                         | Some m => opt_bind (view m) (fun v =>
-                                      Some (Some (mask filt v)))
+                                      Some (Some (fmask filt v)))
                         end) (f_slots root))
             end) (fun slots0 =>
   opt_bind (all_some (map (as_dict st root)
@@ -614,14 +667,18 @@ Definition export (st : store) (src : nat) (pfilts : list (list bool))
               match sb with
               | SBInternal d m => Some sb
               | SBFile t m nm fs =>
-                  opt_bind (export_map filt m) (fun m' =>
-                    Some (SBFile t (Some m') nm fs))
+                  opt_bind (export_map_opt filt m) (fun m' =>
+                    Some (SBFile t m' nm fs))
               end) (upstream' ++ [self]))) (fun blist =>
   let blist' := filter (fun sb => match sb with
                                   | SBInternal _ _ => false
                                   | _ => true
                                   end) blist in
-  store_basins {| f_n := count_true filt; f_innate := innate;
+  store_basins {| f_n := match filt with
+                         | Some f => count_true f
+                         | None => zlen idx_root
+                         end;
+                  f_innate := innate;
                   f_slots := slots0; f_basins := [] |} blist'))))))).
 
 (* ------------------------------------------------------------------ *)
@@ -661,7 +718,7 @@ Definition copy_file (fl : file) (keep : list Z) : file :=
 (* ------------------------------------------------------------------ *)
 Inductive step :=
 | SWrite (n : Z) (innate : fdata) (sbs : list sbasin)
-| SExport (src : Z) (pfilts : list (list bool)) (filt : list bool)
+| SExport (src : Z) (pfilts : list (list bool)) (filt : option (list bool))
           (feats : option (list Z))
 | SCopy (src : Z) (keep : list Z).
 
@@ -717,13 +774,13 @@ Definition run_query (st : store) (cs : caches) (q : Z * Z * access)
   | Some _ =>
       match lookup (fuel_of st) st (Z.to_nat fid) f with
       | None => (cs, [3])
-      | Some (ODirect d) => (cs, enc (direct_access d ac))
+      | Some (ODirect d) => (cs, enc (direct_access trunc8 d ac))
       | Some (OProxy d m) =>
           let c := match assoc (ckey fid f) cs with
                    | Some c => c
                    | None => None
                    end in
-          let '(c', r) := proxy_access Z d m (is_scalar_feat f) c ac in
+          let '(c', r) := proxy_access Z d m (is_scalar_feat f) trunc8 c ac in
           ((ckey fid f, c') :: cs, enc r)
       end
   end.
@@ -779,9 +836,6 @@ Fixpoint chain_ok (n : Z) (filts : list (list bool)) : bool :=
 Definition in_range (n : Z) (m : list Z) : bool :=
   forallb (fun j => (0 <=? j) && (j <? n)) m.
 
-Definition slots_count (slots : list (option (list Z))) : nat :=
-  length (filter (fun s => match s with Some _ => true | None => false end)
-                 slots).
 
 (* the map requested by one store_basin call *)
 Definition sb_map (sb : sbasin) : option (list Z) :=
@@ -848,13 +902,65 @@ Definition run_big (c : Z * Z * list (list (Z * Z) * option Z)) : list Z :=
                         f_basins := [] |} sbs with
   | None => [-1]
   | Some fl =>
-      map (fun b => match b_slot b with
-                    | Some k => Z.of_nat k
-                    | None => -2
-                    end) (f_basins fl)
-      ++ [-3]
-      ++ flat_map (fun k => match slot (f_slots fl) k with
-                            | None => []
-                            | Some m => [Z.of_nat k; zlen m; checksum m]
-                            end) (seq 0 10)
+      (* per basin definition: length and checksum of the map it refers to *)
+      flat_map (fun b => match b_slot b with
+                         | Some k => match slot (f_slots fl) k with
+                                     | Some m => [zlen m; checksum m]
+                                     | None => [-2]
+                                     end
+                         | None => [-2]
+                         end) (f_basins fl)
+  end.
+
+(* chain_map / chain_data / chain_ok on a chain of filtered exports that
+   starts at an origin with n events *)
+Definition run_chain (c : Z * list (list bool)) : list Z :=
+  let '(n, filts) := c in
+  match chain_map None filts with
+  | None => [-1]
+  | Some m => m ++ [-7] ++ chain_data (iota n) filts
+              ++ [-7; if chain_ok n filts then 1 else 0]
+  end.
+
+(* ------------------------------------------------------------------ *)
+(* RTDCBase.basins_retrieve, file-type basins: which location is used  *)
+(* ------------------------------------------------------------------ *)
+(* Paths are lists of components.  A file system maps an absolute path to
+   the run identifier of the dataset stored there.  For every entry of
+   "paths" the code first tries the entry as given, then the entry relative
+   to the directory of the referrer, and stops at the first location that
+   exists and passes verify_basin.  Relative entries as given are relative
+   to the working directory, which is assumed not to contain the basin. *)
+Inductive loc :=
+| LAbs (p : list Z)
+| LRel (p : list Z).
+
+Definition fsys := list Z -> option Z.
+
+Fixpoint find_basin (fs : fsys) (ok : Z -> bool) (parent : list Z)
+         (locs : list loc) : option (Z * list Z) :=   (* (entry index, path) *)
+  match locs with
+  | [] => None
+  | l :: r =>
+      let next := match find_basin fs ok parent r with
+                  | Some (i, p) => Some (i + 1, p)
+                  | None => None
+                  end in
+      let p := match l with LAbs p => p | LRel p => parent ++ p end in
+      match fs p with
+      | Some id => if ok id then Some (0, p) else next
+      | None => next
+      end
+  end.
+
+(* a canonical instance for the correspondence: referrer in directory [1]
+   (moved to [2]), basin in the subdirectory [3] *)
+Definition run_find (moved : bool) : list Z :=
+  let fs (p : list Z) : option Z :=
+      if moved then (if list_eqb p [2; 3; 9] then Some 7 else None)
+      else (if list_eqb p [1; 3; 9] then Some 7 else None) in
+  match find_basin fs (fun id => id =? 7) (if moved then [2] else [1])
+                   [LAbs [1; 3; 9]; LRel [3; 9]] with
+  | Some (i, _) => [i]
+  | None => [-1]
   end.
